@@ -444,6 +444,7 @@ type FuncContract struct {
 	Rely     []Clause // two-state relation every interference step of other goroutines satisfies
 	Shared   []string // ghost fields other goroutines may change (havocked at yield points under Rely)
 	Uses     []string // lemmas assumed in this function's VC (each discharged on its own)
+	CbInv    []Clause // `cbinvariant [label] expr`: invariant of the state over the calls a library makes to a callback (pragma callback)
 	Forbid   []Clause // `forbid [label] call <name>`: the function and its closures contain no such call
 	Key      string
 	File     string
@@ -505,7 +506,7 @@ var keywords = map[string]bool{
 	"func": true, "stub": true, "property": true, "returns": true, "requires": true, "ensures": true,
 	"modifies": true, "inline": true, "trusted": true, "ghost": true, "loop": true, "invariant": true,
 	"decreases": true, "at": true, "lemma": true, "spec": true, "assume": true, "pragma": true, "axiom": true,
-	"before": true, "ghostfield": true, "uses": true, "forbid": true, "rely": true, "shared": true, "guarded": true, "atomic": true,
+	"before": true, "ghostfield": true, "uses": true, "forbid": true, "cbinvariant": true, "rely": true, "shared": true, "guarded": true, "atomic": true,
 }
 
 func firstWord(s string) (string, string) {
@@ -801,6 +802,12 @@ func (sp *Specs) ParseSpecFile(path string) error {
 				for _, u := range strings.Split(rest, ",") {
 					cur.Shared = append(cur.Shared, strings.TrimSpace(u))
 				}
+			case "cbinvariant":
+				c, err := parseClause(rest, l.no, path)
+				if err != nil {
+					return err
+				}
+				cur.CbInv = append(cur.CbInv, c)
 			case "forbid":
 				// forbid [label] call Name
 				c := Clause{Text: rest}
